@@ -15,6 +15,7 @@ BASES = [
     ("deref", [{"mov": [{"$deref": {"main_reg": "%rax", "constant_offset": "0x8"}}, "rbx"]}, "ret"]),
     ("op_or", [{"mov": [{"$or": ["rax", "rbx"]}, "rcx"]}, "ret"]),
     ("names", ["movl", {"movq": ["raxx"]}, "ret"]),
+    ("times_twice", ["push", {"mov": {"times": 2}}, "pop", {"mov": {"times": 3}}, "mov", "ret"]),
     ("ints", [{"mov": [0, "rax"]}, {"add": [8, "rax"]}, "ret"]),
     ("dup", ["papa", {"mov": ["0xffff", "rax"]}, "ret"]),
     ("zero", [{"$or": [{"xor": ["rax", "rax"]}, {"mov": ["rax", 0]}]}, {"$or": [{"xor": ["rbx", "rbx"]}, {"mov": ["rbx", 0]}]}, "ret"]),
@@ -185,6 +186,21 @@ def two_macro_variants(base, rnd):
                         break
             if done:
                 break
+    # the same string macro in key position at every place it occurs (different times bodies) and as a plain item
+    keyed = [(p, sub) for p, sub in _paths(base) if isinstance(sub, dict) and len(sub) == 1 and isinstance(list(sub.values())[0], dict) and list(list(sub.values())[0]) == ["times"] and not list(sub)[0].startswith("$")]
+    names = {}
+    for p, sub in keyed:
+        names.setdefault(list(sub)[0], []).append(p)
+    for nm, ps in names.items():
+        if len(ps) >= 2:
+            pat = copy.deepcopy(base)
+            for p in ps:
+                _set(pat, p, {"@k1": copy.deepcopy(_get(base, p)[nm])})
+            for i, x in enumerate(pat):
+                if x == nm:
+                    pat[i] = "@k1"
+            out.append(("key_times_twice", [{"name": "@k1", "pattern": nm}], pat))
+            break
     # the same string macro used at every place the string occurs (several uses)
     seen = {}
     for p, s in strs:
